@@ -427,6 +427,62 @@ fn rand_hyper(r: &mut Rng, maxn: usize, maxe: usize, maxa: usize) -> Value {
     pack(&w, &edges, &s, &t)
 }
 
+/// a monogamous diagram (every node produced exactly once - by the source interface or a hyperedge
+/// target - and consumed exactly once), then at most one small perturbation next to the boundary of
+/// the definition: a repeated or dropped interface entry, one more incidence, an isolated node
+fn rand_near_monogamous(r: &mut Rng) -> Value {
+    let ni = r.below(4);
+    let mut open: Vec<usize> = (0..ni).collect();
+    let mut s: Vec<usize> = open.clone();
+    r.shuffle(&mut s);
+    let mut n = ni;
+    let mut edges: Vec<(i64, Vec<usize>, Vec<usize>)> = vec![];
+    for _ in 0..r.below(4) {
+        let ar = r.below(3).min(open.len());
+        r.shuffle(&mut open);
+        let es: Vec<usize> = open.drain(..ar).collect();
+        let co = r.below(3);
+        let et: Vec<usize> = (0..co).map(|k| n + k).collect();
+        n += co;
+        open.extend(et.iter());
+        edges.push((r.below(2) as i64, es, et));
+    }
+    let mut t = open.clone();
+    r.shuffle(&mut t);
+    match r.below(10) {
+        0 if !t.is_empty() => {
+            let k = r.below(t.len());
+            let v = t[k];
+            t.insert(r.below(t.len() + 1), v);
+        }
+        1 if !s.is_empty() => {
+            let k = r.below(s.len());
+            let v = s[k];
+            s.insert(r.below(s.len() + 1), v);
+        }
+        2 if !t.is_empty() => {
+            t.remove(r.below(t.len()));
+        }
+        3 if !s.is_empty() => {
+            s.remove(r.below(s.len()));
+        }
+        4 if !edges.is_empty() && n > 0 => {
+            let k = r.below(edges.len());
+            let v = r.below(n);
+            edges[k].1.push(v);
+        }
+        5 if !edges.is_empty() && n > 0 => {
+            let k = r.below(edges.len());
+            let v = r.below(n);
+            edges[k].2.push(v);
+        }
+        6 => n += 1,
+        _ => {}
+    }
+    let w: Vec<i64> = (0..n).map(|_| r.below(2) as i64).collect();
+    pack(&w, &edges, &s, &t)
+}
+
 fn drive_graphs(out: &mut impl Write, r: &mut Rng, budget: usize, props: &Value, backend: &str) {
     let mut produced = 0;
     while produced < budget {
@@ -459,7 +515,7 @@ fn drive_graphs(out: &mut impl Write, r: &mut Rng, budget: usize, props: &Value,
             let f = rand_hyper(r, 4, 7, 2);
             (*r.pick(&["strict.layer", "strict.layered_operations", "strict.is_acyclic"]), json!({"f": f}))
         } else if choice < 72 {
-            let f = rand_hyper(r, 8, 5, 3);
+            let f = if r.coin(1, 2) { rand_near_monogamous(r) } else { rand_hyper(r, 8, 5, 3) };
             (*r.pick(&["strict.is_acyclic", "strict.is_monogamous"]), json!({"f": f}))
         } else if choice < 80 {
             let f = rand_hyper(r, 7, 5, 3);
